@@ -8,8 +8,11 @@ package main
 import (
 	"bufio"
 	"fmt"
+	"math"
 	"os"
 	"path/filepath"
+	"regexp"
+	"sort"
 	"strconv"
 	"strings"
 
@@ -40,6 +43,8 @@ type c14seq struct {
 	AtRank   []string       `json:"atrank"`   // obiannotate --with-taxon-at-rank
 	Slot     *int           `json:"slot"`     // value of attribute "clade" for IsSubCladeOfSlot("clade") (nil: attribute absent)
 	SlotStr  *string        `json:"slotstr"`  // literal value of the attribute "clade" (overrides slot), e.g. "TX:12"
+	Thr      []float64      `json:"thr"`      // round 2: thresholds at which Taxonomy.LCA(seq, thr) is run ...
+	Reps     int            `json:"reps"`     // ... Reps times each on a fresh sequence (map iteration order varies): the SET of outcomes is observed
 }
 
 type c14case struct {
@@ -55,6 +60,9 @@ type c14case struct {
 	NamesQ  [][]any    `json:"namesq"` // [taxid, name]
 	Seqs    []c14seq   `json:"seqs"`
 	Raw     *[3]string `json:"raw"` // optional: literal file contents (nodes, names, merged) instead of rows
+	Forms   [][]any    `json:"forms"`  // round 2: [kind, value] arguments of Taxonomy.Taxon(interface{}): kind int|str|f64|i64|nil|bytes
+	NamesM  [][]any    `json:"namesm"` // round 2: [taxid, pattern] for IsNameMatching
+	Loads   int        `json:"loads"`  // round 2: load the dump that many times and report the distinct sets of nodes left with a nil parent pointer
 }
 
 // codes: -1 = taxid unknown (Taxon returned an error), -2 = error return, -3 = panic / fatal
@@ -77,6 +85,17 @@ type c14seqobs struct {
 	WLCA     int            `json:"wlca"`    // Taxonomy.LCA(seq, 1.0) taxid; -3 panic
 	LCAAttr  int            `json:"lcaattr"` // attribute x_taxid after AddLCAWorker(.., "x", 1.0); -3 panic
 	LCAErr   string         `json:"lcaerr"`
+	Thr      [][]c14lca     `json:"thr"`   // per threshold: distinct outcomes over the repetitions, sorted
+	NoTax    int            `json:"notax"` // AddLCAWorker on a sequence with neither taxid nor merged_taxid: taxid, -3 panic, -9 not run
+}
+
+// one outcome of Taxonomy.LCA(seq, thr)
+type c14lca struct {
+	T  int    `json:"t"`  // taxid; -4 nil taxon; -3 panic
+	B  string `json:"b"`  // math.Float64bits(rans), decimal
+	G  int    `json:"g"`  // granTotal
+	WT int    `json:"wt"` // <slot>_taxid written by AddLCAWorker on the same sequence (-3 panic)
+	WE string `json:"we"` // <slot>_error written by AddLCAWorker
 }
 type c14obs struct {
 	Kind    string      `json:"kind"` // ok | loaderr | loadpanic
@@ -90,6 +109,9 @@ type c14obs struct {
 	Resolve []int       `json:"resolve"`
 	NamesQ  []int       `json:"namesq"`
 	Seqs    []c14seqobs `json:"seqs"`
+	Forms   []int       `json:"forms"`
+	NamesM  []int       `json:"namesm"`
+	NilPar  [][]int     `json:"nilpar"` // distinct sorted lists of taxids whose Parent() is nil after loading (one per distinct outcome over Loads loads)
 }
 
 func init() {
@@ -122,7 +144,22 @@ func c14write(dir string, c c14case) error {
 			fmt.Fprintf(&nb, "%d\t|\t%d\t|\t%s\t|\t\t|\t0\t|\t1\t|\t1\t|\t0\t|\t0\t|\t0\t|\t0\t|\t0\t|\t\t|\n", toInt(n[0]), toInt(n[1]), n[2].(string))
 		}
 		for _, n := range c.Names {
-			fmt.Fprintf(&mb, "%d\t|\t%s\t|\t\t|\t%s\t|\n", toInt(n[0]), n[1].(string), n[2].(string))
+			uniq := ""
+			if len(n) > 3 {
+				uniq = n[3].(string)
+			}
+			layout := 0
+			if len(n) > 4 {
+				layout = toInt(n[4])
+			}
+			switch layout {
+			case 1: // no blanks at all
+				fmt.Fprintf(&mb, "%d|%s|%s|%s|\n", toInt(n[0]), n[1].(string), uniq, n[2].(string))
+			case 2: // blanks instead of tabs, trailing blanks
+				fmt.Fprintf(&mb, " %d | %s  |%s |  %s | \n", toInt(n[0]), n[1].(string), uniq, n[2].(string))
+			default: // the NCBI layout
+				fmt.Fprintf(&mb, "%d\t|\t%s\t|\t%s\t|\t%s\t|\n", toInt(n[0]), n[1].(string), uniq, n[2].(string))
+			}
 		}
 		for _, m := range c.Merged {
 			fmt.Fprintf(&gb, "%d\t|\t%d\t|\n", m[0], m[1])
@@ -275,6 +312,72 @@ func c14run(c c14case) (o c14obs) {
 		}
 		o.NamesQ = append(o.NamesQ, guardInt(-3, func() int { return b2i14(t.IsNameEqual(nm)) }))
 	}
+	for _, q := range c.Forms {
+		var arg any
+		switch q[0].(string) {
+		case "int":
+			arg = toInt(q[1])
+		case "str":
+			arg = q[1].(string)
+		case "f64":
+			arg = q[1].(float64)
+		case "i64":
+			arg = int64(toInt(q[1]))
+		case "bytes":
+			arg = []byte(q[1].(string))
+		case "nil":
+			arg = nil
+		}
+		t, e := tax.Taxon(arg)
+		if e != nil {
+			o.Forms = append(o.Forms, -1)
+		} else {
+			o.Forms = append(o.Forms, t.Taxid())
+		}
+	}
+	for _, q := range c.NamesM {
+		a, pat := toInt(q[0]), q[1].(string)
+		t, e := tax.Taxon(a)
+		if e != nil {
+			o.NamesM = append(o.NamesM, -1)
+			continue
+		}
+		re, e2 := regexp.Compile(pat)
+		if e2 != nil {
+			o.NamesM = append(o.NamesM, -2)
+			continue
+		}
+		o.NamesM = append(o.NamesM, guardInt(-3, func() int { return b2i14(t.IsNameMatching(re)) }))
+	}
+	if c.Loads > 0 {
+		seen := map[string]bool{}
+		for k := 0; k < c.Loads; k++ {
+			tk := tax
+			if k > 0 {
+				var ek error
+				func() {
+					defer func() { recover() }()
+					tk, ek = ncbitaxdump.LoadNCBITaxDump(dir, c.OnlySN)
+				}()
+				if ek != nil || tk == nil {
+					continue
+				}
+			}
+			l := []int{}
+			for id, n := range *tk.TaxonSet() {
+				if n.Parent() == nil {
+					l = append(l, id)
+				}
+			}
+			sort.Ints(l)
+			key := fmt.Sprint(l)
+			if !seen[key] {
+				seen[key] = true
+				o.NilPar = append(o.NilPar, l)
+			}
+		}
+		sort.Slice(o.NilPar, func(i, j int) bool { return fmt.Sprint(o.NilPar[i]) < fmt.Sprint(o.NilPar[j]) })
+	}
 	for _, s := range c.Seqs {
 		o.Seqs = append(o.Seqs, c14seqrun(tax, s))
 	}
@@ -379,6 +482,73 @@ func c14seqrun(tax *obitax.Taxonomy, s c14seq) c14seqobs {
 			}
 			return v
 		})
+	}
+	r.NoTax = -9
+	if s.Merged == nil && s.Taxid == nil {
+		r.NoTax = guardInt(-3, func() int {
+			sl, e := obitax.AddLCAWorker(tax, "x", 1.0)(c14mkseq(s))
+			if e != nil || len(sl) != 1 {
+				return -2
+			}
+			v, ok := sl[0].GetIntAttribute("x_taxid")
+			if !ok {
+				return -9
+			}
+			return v
+		})
+	}
+	for _, thr := range s.Thr {
+		seen := map[c14lca]bool{}
+		outs := []c14lca{}
+		reps := s.Reps
+		if reps < 1 {
+			reps = 1
+		}
+		for k := 0; k < reps; k++ {
+			var l c14lca
+			l.T = guardInt(-3, func() int {
+				n, rans, g := tax.LCA(c14mkseq(s), thr)
+				l.B = strconv.FormatUint(math.Float64bits(rans), 10)
+				l.G = g
+				if n == nil {
+					return -4
+				}
+				return n.Taxid()
+			})
+			if k == 0 {
+				l.WT = guardInt(-3, func() int {
+					sl, e := obitax.AddLCAWorker(tax, "x", thr)(c14mkseq(s))
+					if e != nil || len(sl) != 1 {
+						return -2
+					}
+					v, ok := sl[0].GetIntAttribute("x_taxid")
+					if !ok {
+						return -9
+					}
+					if ev, ok := sl[0].GetAttribute("x_error"); ok {
+						l.WE = fmt.Sprint(ev)
+					}
+					return v
+				})
+				// the worker ran on its own sequence (its own map order): reported separately
+				outs = append(outs, c14lca{T: -100, WT: l.WT, WE: l.WE})
+				l.WT, l.WE = 0, ""
+			}
+			if !seen[l] {
+				seen[l] = true
+				outs = append(outs, l)
+			}
+		}
+		sort.Slice(outs, func(i, j int) bool {
+			if outs[i].T != outs[j].T {
+				return outs[i].T < outs[j].T
+			}
+			if outs[i].B != outs[j].B {
+				return outs[i].B < outs[j].B
+			}
+			return outs[i].G < outs[j].G
+		})
+		r.Thr = append(r.Thr, outs)
 	}
 	return r
 }
